@@ -82,6 +82,7 @@ def generate(streams, tier):
                 ev[e] = rw.randrange(card[e[0]])
         ops.append({"op": weighted(rw, [("query", 5), ("forward", 3), ("backward", 2)]), "q": qs, "ev": [[a, t, s] for (a, t), s in sorted(ev.items())]})
     ops.append({"op": "constant_bn"})
+    ops.append({"op": "init_state", "direction": rw.choice([0, 1])})
     return {"k": k, "card": card, "intra": intra, "inter": inter, "par0": par0, "par1": par1, "t0": t0, "t1": t1, "labels": labels, "ops": ops,
             "config": {"edge_order": rw.random(), "cpd_order": rw.random()}}
 
@@ -216,6 +217,9 @@ def execute(case, ctx):
         if op["op"] == "constant_bn":
             _constant(ctx, case, dbn, L)
             continue
+        if op["op"] == "init_state":
+            _init_state(ctx, case, op)
+            continue
         qs = [tuple(q) for q in op["q"] if q[0] < k]
         ev = {(a, t): s for a, t, s in op["ev"] if a < k and s < card[a] and (a, t) not in qs}
         if not qs:
@@ -320,3 +324,65 @@ def shrink_candidates(case):
         out = copy.deepcopy(case)
         out["labels"] = ["v%d" % i for i in range(case["k"])]
         yield out
+
+
+def _init_state(ctx, case, op):
+    """initialize_initial_state copies a CPD given for one slice to the other slice without altering it (compared by parent name)."""
+    from pgmpy.factors.discrete import TabularCPD
+    from pgmpy.models import DynamicBayesianNetwork as DBN
+
+    k, card = case["k"], case["card"]
+    L = [W.dec(x) for x in case["labels"]]
+    free = [v for v in range(k) if not any(b == v for a, b in case["inter"])]  # same parents in both slices
+    if not free:
+        return
+    src_t = op["direction"]
+    dst_t = 1 - src_t
+    dbn = DBN()
+    for v in range(k):
+        dbn.add_node(L[v])
+    dbn.add_edges_from([((L[a], 0), (L[b], 0)) for a, b in case["intra"]] + [((L[a], 0), (L[b], 1)) for a, b in case["inter"]])
+    cpds = []
+    for v in range(k):
+        if v in free:
+            ps = case["par0"][v]
+            cpds.append(TabularCPD((L[v], src_t), card[v], case["t0"][v], evidence=[(L[p], src_t) for p in ps] or None, evidence_card=[card[p] for p in ps] or None))
+        else:
+            ps = case["par0"][v]
+            cpds.append(TabularCPD((L[v], 0), card[v], case["t0"][v], evidence=[(L[p], 0) for p in ps] or None, evidence_card=[card[p] for p in ps] or None))
+            ps1 = case["par1"][v]
+            cpds.append(TabularCPD((L[v], 1), card[v], case["t1"][v], evidence=[(L[p], s_) for p, s_ in ps1] or None, evidence_card=[card[p] for p, s_ in ps1] or None))
+    dbn.add_cpds(*cpds)
+    ctx.event("init_state", src_t, free)
+    try:
+        dbn.initialize_initial_state()
+    except Exception as e:
+        sig = f"{PROP}:raise:init_state:{type(e).__name__}:{exc_site(e)}"
+        ctx.fail("succeeds", sig, {"exc": exc_brief(e), "free": free, "card": card, "par0": case["par0"], "direction": src_t})
+        return
+    ctx.checked += 1
+    for v in free:
+        got = [c for c in dbn.cpds if c.variable == (L[v], dst_t)]
+        if len(got) != 1:
+            ctx.fail("init_state", f"{PROP}:init_state_missing_cpd", {"var": v, "n": len(got)})
+            return
+        c = got[0]
+        ps = case["par0"][v]
+        want = np.asarray(case["t0"][v], dtype=float).reshape([card[v]] + [card[p] for p in ps])
+        got_ps = [(x[0], x[1]) for x in c.variables[1:]]
+        if sorted(map(repr, got_ps)) != sorted(repr((L[p], dst_t)) for p in ps):
+            ctx.fail("init_state", f"{PROP}:init_state_parents", {"var": v, "got": [repr(x) for x in got_ps], "want": [repr((L[p], dst_t)) for p in ps]})
+            return
+        vals = to_np(c.values)
+        # align the copied CPD's axes to the template's parent order by name
+        order = [0] + [1 + got_ps.index((L[p], dst_t)) for p in ps]
+        try:
+            arr = np.transpose(vals, order)
+        except Exception as e:
+            ctx.fail("init_state", f"{PROP}:init_state_shape", {"var": v, "shape": list(vals.shape), "want": list(want.shape)})
+            return
+        if arr.shape != want.shape or not close(arr, want, atol=1e-12, rtol=1e-12):
+            multi = len(ps) >= 2
+            ctx.fail("init_state", f"{PROP}:init_state_cpd_altered" + (":multi_parent" if multi else ""),
+                     {"var": v, "parents": ps, "card": card, "shape": list(arr.shape), "want_shape": list(want.shape), "direction": src_t})
+            return
